@@ -492,7 +492,9 @@ theorem bin_trapz_exact_per_bin (s : Spectrum) (hwf : WF s) (sym : Bool) (fl fr 
 
 /-- non-negativity of `bin` itself (trapezoid rule): a well-formed spectrum with non-negative values and non-negative
 fill, strictly increasing centres ⇒ every bin is non-negative — without power preservation, and with it (the
-normalisation integral `integrate s (min c) (max c)` and the raw sum are both non-negative) -/
+normalisation integral `integrate s (min c) (max c)` and the raw sum are both non-negative). NOTE: when the raw bins sum to
+zero (all-zero spectrum, or every edge outside the data with fill 0) the model's normalised bins are 0 by ℚ's x/0 = 0; the
+code computes 0/0 and returns nan there — outside this theorem, see the harness ASSUMPTIONS. -/
 theorem bin_trapz_nonneg (s : Spectrum) (hwf : WF s) (hv : ∀ v ∈ s.value, 0 ≤ v) (sym : Bool) (fl fr : ℚ)
     (hfl : 0 ≤ fl) (hfr : 0 ≤ fr) (c : List ℚ) (hc : StrictInc c) (pp : Bool) (bins : List ℚ)
     (h : bin s false sym fl fr (if pp then some none else none) c = .ok bins) : ∀ b ∈ bins, 0 ≤ b := by
